@@ -15,7 +15,7 @@ def lib_delivery(dialect, defs_dir, stream):
     pl._deserialize_packet = ds
     pl._process_packet = lambda t, p: None
     try:
-        with common.time_limit(max(20.0, len(stream) / 5000.0)): pl.play(stream, True)
+        with common.time_limit(max(3.0, len(stream) / 5000.0)): pl.play(stream, True)
         tail = 'clean'
     except common.HangError: tail = 'HANG'          # the play loop did not return: the property's termination clause
     except struct.error: tail = 'headercut'
@@ -154,7 +154,7 @@ def run(ctx):
             pl = recordings.make_player(rep); rec = recordings.Recorder(pl)
             try:
                 try:
-                    with common.time_limit(max(120.0, len(s) / 5000.0)): pl.play(s, False)
+                    with common.time_limit(max(60.0, len(s) / 5000.0)): pl.play(s, False)
                 except common.HangError: return ['HANG']
                 return [l for l in rec.trace if not l.startswith(('L ', 'LP '))] + recordings.dump_entities(pl._battle_controller)
             finally: rec.close()
